@@ -270,14 +270,11 @@ def template_body_pipeline(rep: C.Report, pid: str = "C04") -> None:
         fn = fns[0]
         ps = PS.passes(fn)
         named = {
-            "comment_closed": PS.find_pass(ps, ["<!--x-->"], ["<!--x", "<noinclude>x</noinclude>"]),
-            "comment_open": PS.find_pass(ps, ["<!--x"], ["<noinclude>x"]),
+            # the first pass that removes closed comments (it may or may not also handle an unclosed one)
+            "comment_closed": PS.find_pass(ps, ["<!--x-->", "a<!-- b -->c"], ["<noinclude>x</noinclude>", "x"]),
             "noinclude_paired": PS.find_pass(ps, ["<noinclude>x</noinclude>", "<NOINCLUDE>x</noinclude >"], ["<noinclude>x", "<onlyinclude>x</onlyinclude>"]),
             "noinclude_open": PS.find_pass(ps, ["<noinclude>x"], ["<!--x", "<onlyinclude>x"]),
         }
-        # comment_open also matches closed comments; make sure the two are different passes
-        if named["comment_open"] is named["comment_closed"]:
-            named["comment_open"] = next((p for p in ps if p is not named["comment_closed"] and p.matches("<!--x") and not p.matches("<noinclude>x")), None)
         if named["noinclude_open"] is named["noinclude_paired"]:
             named["noinclude_open"] = next((p for p in ps if p is not named["noinclude_paired"] and p.matches("<noinclude>x") and not p.matches("<!--x")), None)
         missing = [k for k, v in named.items() if v is None]
